@@ -18,11 +18,12 @@ def compute(key, want_steps=False):
             api, lambda: ops.raw_call(api, obj, opts, enc))
         return out
     tr = LineTracer(PKG)
-    tr.arm(None)
+    tr.arm(None, count_locs=True)
     try:
         out, _val = ops.outcome_of(
             api, lambda: ops.raw_call(api, obj, opts, enc))
     finally:
         n = tr.disarm()
     out['steps'] = n
+    out['locs'] = tr.nloc
     return out
